@@ -41,13 +41,13 @@ REQUIRED_COUNTERS = {"quick": {"original_fingerprints_compared": 4000, "fingerpr
                                "sibling_vs_fresh_derivation": 1000, "copy_name_checked": 4000, "origin_chain_checked": 3000,
                                "op_results_vs_baseline": 3000, "cond_consistency_checked": 3000, "model_args_vs_reference": 150,
                                "sampler_runs_completed": 150, "gibbs_sweeps_observed": 400, "gibbs_chain_vs_untouched_twin": 10,
-                               "recondition_loop_steps": 3500, "loop_conditional_vs_joint": 500, "autoname_names_checked": 150, "state_checked_after_malformed_op": 700, "malformed_ops_refused": 400},
+                               "recondition_loop_steps": 3500, "loop_conditional_vs_joint": 500, "autoname_names_checked": 150, "state_checked_after_malformed_op": 700, "malformed_ops_refused": 400, "bp_ops": 30},
                      "thorough": {"original_fingerprints_compared": 40000, "fingerprint_fields_compared": 2000000,
                                   "derived_fingerprints_compared": 50000, "twin_fingerprints_compared": 22000,
                                   "sibling_vs_fresh_derivation": 10000, "copy_name_checked": 40000, "origin_chain_checked": 30000,
                                   "op_results_vs_baseline": 30000, "cond_consistency_checked": 30000, "model_args_vs_reference": 1500,
                                   "sampler_runs_completed": 1500, "gibbs_sweeps_observed": 3000, "gibbs_chain_vs_untouched_twin": 70,
-                                  "recondition_loop_steps": 60000, "loop_conditional_vs_joint": 8000, "autoname_names_checked": 1300, "state_checked_after_malformed_op": 7000, "malformed_ops_refused": 4000}}
+                                  "recondition_loop_steps": 60000, "loop_conditional_vs_joint": 8000, "autoname_names_checked": 1300, "state_checked_after_malformed_op": 7000, "malformed_ops_refused": 4000, "bp_ops": 200}}
 BUDGET_S = {"quick": 600.0, "thorough": 3000.0}   # watchdog only; typical use is far below (see report)
 
 RTOL, ATOL = 1e-9, 1e-12
@@ -111,8 +111,17 @@ def cases(tier, seed):
     for i in range(nauto):
         out.append({"kind": "autoname", "i": i, "tpl": "autoname", "family": AUTONAME_FAMILIES[i % len(AUTONAME_FAMILIES)],
                     "order": ["copy_first", "name_first", "copy_first_reversed"][(i // len(AUTONAME_FAMILIES)) % 3], "opts": {}})
+    nbp = 18 if tier == "quick" else 120
+    for i in range(nbp):
+        opts = _hier_opts(R, tier)
+        opts.update({"n": R.randint(5, 8), "xprior": ["lmrf_fix", "cmrf_fix", "gmrf_fix", "gauss_covmat", "laplace_fix", "lmrf_fix"][i % 6],
+                     "noise": R.choice(["fixed_s", "fixed_v"]), "model": R.choice(["mat", "fun", "geom"]), "lik": "gauss", "ndata": 1,
+                     "defer": "none", "scale": 1.0, "bc": "zero", "gorder": 1})
+        if i % 2 == 0:
+            opts["m"] = opts["n"]
+        out.append({"kind": "bp", "i": i, "tpl": "hier", "opts": opts})
     # the few long cases first (spread over the shards), so that a wall-clock budget cuts programs, not whole case kinds
-    rank = {"loop": 0, "gibbs": 1, "autoname": 1, "seq": 2}
+    rank = {"loop": 0, "gibbs": 1, "autoname": 1, "bp": 1, "seq": 2}
     out.sort(key=lambda c: (rank[c["kind"]], -c.get("sweeps", 0) if c["kind"] == "loop" else c["i"]))
     return out
 
@@ -1242,6 +1251,10 @@ class Runner:
             kinds += ["double_spec", "wrong_shape", "misspelled_kw", "unknown_kw_mixed"]
         if e.fp_ref.get("is_cond") == ("v", True):
             kinds.append("sample_conditional")
+        if e.fp_ref.get("dim") == ("v", "sizeless-conditional"):
+            # sampler constructors read target.dim, which caches the guess 1 on a still size-less conditional (same getter
+            # behaviour as in the fingerprint rule above; reading dim is not an operation of the property) -> not driven here
+            kinds.remove("sampler_on_unsuitable")
         kind = kinds[int(self.rs.randint(len(kinds)))]
         self.last_op["malformed"] = kind
         j = int(self.rs.randint(3))
@@ -1464,6 +1477,8 @@ def run_case(case, ctx):
         run_loop(case, ctx)
     elif case["kind"] == "autoname":
         run_autoname(case, ctx)
+    elif case["kind"] == "bp":
+        run_bp(case, ctx)
     else:
         raise ValueError(case["kind"])
 
@@ -1699,6 +1714,47 @@ def run_loop(case, ctx):
     F.twin(lambda Tw, eid: Tw.joint(**_data_kwargs(Tw)), op)
     ctx.nontrivial()
     ctx.nontrivial(f"loop/{case['tpl']}/{S}")
+
+# ---- BayesianProblem: its convenience samplers work on copies; the problem's own posterior must stay what it was
+
+def run_bp(case, ctx):
+    import cuqi
+    F = _Fixture(case, ctx)
+    W = F.W
+    xp = case["opts"]["xprior"]
+    samplable = xp not in ("lmrf_fix", "cmrf_fix")       # LMRF / CMRF have no direct sampler -> sample_prior takes its MCMC branch
+    F.cfg.update({"xprior": xp, "prior_samplable": samplable})
+    def make(Wx):
+        return cuqi.problem.BayesianProblem(Wx.dists["y"], Wx.dists["x"]).set_data(y=Wx.probes["y"][0])
+    BP = make(W)
+    post = BP.posterior
+    F.track("bp_posterior", post)
+    def attempt(label, fn):
+        state = np.random.get_state()
+        try:
+            np.random.seed(5)
+            fn()
+            ctx.count("bp_ops_completed")
+        except Exception as e:  # noqa - automatic sampler selection may refuse / fail; only the after-state is judged
+            ctx.refused("bp_" + label, e)
+        finally:
+            np.random.set_state(state)
+        ctx.count("bp_ops")
+        ok = F.check("after BayesianProblem." + label, "BayesianProblem." + label)
+        same = BP.posterior is post
+        if not same:
+            ctx.violation("derived_copy_changed", {**F.cfg, "object": "BayesianProblem", "field": "posterior_identity", "op": "BayesianProblem." + label},
+                          detail=f"BayesianProblem.posterior is a different object after {label}")
+        return ok and same
+    Ns = 4 if xp == "cmrf_fix" else 10
+    steps = [("sample_posterior", lambda: BP.sample_posterior(Ns)), ("MAP", lambda: BP.MAP(disp=False)),
+             ("sample_prior", lambda: BP.sample_prior(Ns)), ("sample_posterior", lambda: BP.sample_posterior(Ns))]
+    for label, fn in steps:
+        if not attempt(label, fn):
+            return        # state already differs: later differences would only repeat this one under another label
+    F.twin(lambda Tw, eid: make(Tw).posterior, "BayesianProblem")
+    ctx.nontrivial()
+    ctx.nontrivial(f"bp/{xp}/{case['opts']['model']}")
 
 # ---- originals WITHOUT an explicit name= (the name is inferred from the Python variable that holds them)
 
